@@ -165,6 +165,11 @@ fn twice(w: &mut ZWorld, args: &[String]) {
     w.calls.push(format!("twice({})", args.join(",")));
 }
 
+#[when(regex = r"^opts (\w*) (\w*)(?: (\w+))?$")]
+fn opts(w: &mut ZWorld, args: &[String]) {
+    w.calls.push(format!("opts({})", args.join(",")));
+}
+
 #[given(regex = "^okres$")]
 fn okres(w: &mut ZWorld) -> Result<(), String> {
     w.calls.push("okres()".into());
